@@ -32,7 +32,7 @@ def _really_malformed(t):
 
 MALFORMED = [t for t in MALFORMED if _really_malformed(t)]
 VMODES = ["plain", "o-json", "o-yaml", "s-json", "s-yaml", "s-junit", "s-sarif", "payload", "payload-s", "stdin", "dirs", "verbose",
-          "mixed-fd", "mixed-df", "mixed-fd-s", "mixed-df-s"]
+          "mixed-fd", "mixed-df", "mixed-fd-s", "mixed-df-s", "print-json", "print-json-verbose", "payload-print-json"]
 
 
 def instance(rng):
@@ -128,6 +128,14 @@ def argv_for(mode, rpaths, dpaths, rtexts, dtexts, sdir):
     dargs = [x for p in dpaths for x in ("-d", p)]
     if mode == "plain":
         return base + rargs + dargs, None
+    if mode == "print-json":
+        return base + rargs + dargs + ["-p", "-S", "none"], None
+    if mode == "print-json-verbose":
+        return base + rargs + dargs + ["--print-json", "-v", "-S", "all"], None
+    if mode == "payload-print-json":
+        if any("\udcff" in t for t in rtexts):
+            return None
+        return base + ["--payload", "-p"], json.dumps({"rules": rtexts, "data": dtexts})
     if mode == "verbose":
         return base + rargs + dargs + ["-v", "-S", "all"], None
     if mode == "o-json":
